@@ -108,4 +108,3 @@ func judgeCloseAcross(o *reconlib.Outcome) vrun.Result {
 	r.Stat("resume_requests", int64(len(u.State.Resumes)))
 	return r
 }
-
